@@ -69,7 +69,7 @@ def _cuts(fn, *about):
 
 
 def r01b(P, R):
-    _sections(P, R, "R01-b", _b_parents, _b_implementers, _b_products, _b_variables, _b_branch_per_condition, _b_branch_per_condition_table)
+    _sections(P, R, "R01-b", _b_parents, _b_implementers, _b_products, _b_variables, _b_skip_coverage, _b_branch_per_condition, _b_branch_per_condition_table)
 
 
 def _b_parents(P, R):
@@ -139,6 +139,11 @@ def _b_products(P, R):
 def _b_variables(P, R):
     """(3) the variable enumeration sees every selection and every directive of it (c02: paths of the enumeration, lossless traversal)"""
     c02._f_variables(P, R, "R01-b")
+
+
+def _b_skip_coverage(P, R):
+    """(3b) every variable the skip test can be asked about on a branch is enumerated for that branch"""
+    c02._f_skip_coverage(P, R, "R01-b")
 
 
 def _b_branch_per_condition(P, R):
